@@ -61,6 +61,8 @@ func main() {
 				fn.WriteTo(os.Stdout)
 			}
 		}
+	case "locals": // write <verif>/locals_baseline.json (declared variables per function under contract, see alias.go)
+		cmdLocals(os.Args[2:])
 	case "selftest":
 		cmdSelftest(os.Args[2:])
 	default:
